@@ -318,6 +318,51 @@ class ExprMixin:
     st2 = st1.with_heap(newh).assume(*facts)
     return [Res(st2, VRef(d))]
 
+  def ex_ListComp(self, e, st):
+    """[Cls(i) for i in range(n)] for a one-field record class: a fresh list of n fresh, pairwise
+    distinct records with field = i (summary with a quantified post)."""
+    from pyvc.calls import DATACLASSES, trusted
+    from pyvc.state import cls_fn
+    g = e.generators[0] if len(e.generators) == 1 else None
+    ok = (g is not None and not g.ifs and isinstance(g.target, ast.Name)
+          and isinstance(g.iter, ast.Call) and isinstance(g.iter.func, ast.Name)
+          and g.iter.func.id == 'range' and len(g.iter.args) == 1
+          and isinstance(e.elt, ast.Call) and isinstance(e.elt.func, ast.Name)
+          and e.elt.func.id in DATACLASSES and len(DATACLASSES[e.elt.func.id]) == 1
+          and len(e.elt.args) == 1 and isinstance(e.elt.args[0], ast.Name)
+          and e.elt.args[0].id == g.target.id and not e.elt.keywords)
+    if not ok:
+      self.unsupp('list comprehension outside the summarised forms', e)
+    clsname = e.elt.func.id
+    field = DATACLASSES[clsname][0]
+    trusted('list comprehension [%s(i) for i in range(n)]: n fresh records' % clsname)
+    def k(st2, nval):
+      def k2(st3, n):
+        h = st3.heap
+        site = z3.IntVal(e.lineno * 1000 + e.col_offset)
+        a0 = h.alloc
+        i, j = z3.Ints('lc_i lc_j')
+        rec = lambda x: comp_ref(site, a0, VInt(x))
+        st4, l = self.new_list_from(st3, z3.If(n > 0, n, 0), fresh('lc_arr', ValArr))
+        h4 = st4.heap
+        arr = h4.eltarr(l)
+        na = fresh('lc_alloc', I)
+        newf = fresh('lc_f_' + field, ValArr)
+        oldf = h4.get('f:' + field)
+        r = z3.Int('lc_r')
+        facts = [na >= h4.alloc,
+                 SAFE_FORALL([i], z3.Implies(z3.And(0 <= i, i < n), z3.And(
+                     arr[i] == VRef(rec(i)), rec(i) >= h4.alloc, rec(i) < na,
+                     cls_fn(rec(i)) == z3.IntVal(CLASSES[clsname]), newf[rec(i)] == VInt(i))),
+                             patterns=[arr[i]]),
+                 SAFE_FORALL([i, j], z3.Implies(z3.And(0 <= i, i < j, j < n), rec(i) != rec(j)),
+                             patterns=[z3.MultiPattern(rec(i), rec(j))]),
+                 SAFE_FORALL([r], z3.Implies(r < h4.alloc, newf[r] == oldf[r]), patterns=[newf[r]])]
+        h5 = h4.set('alloc', na).set('f:' + field, newf)
+        return [Res(st4.with_heap(h5).assume(*facts), VRef(l))]
+      return self.with_int(nval, st2, k2, 'range arg')
+    return self.then(self.ev(g.iter.args[0], st), k)
+
   def ex_JoinedStr(self, e, st):
     # contents of f-strings are abstracted to an opaque string (DESIGN §2.1)
     return [Res(st, VStr(fresh('fstr', I)))]
